@@ -730,13 +730,16 @@ impl<T> OnceCell<T> {
     /// `state`; listeners of `active_initializers`, `passive_waiters`.
     #[doc(hidden)]
     pub fn __verif_snapshot(&self) -> crate::__verif::Snapshot {
+        crate::__verif::unrecorded(|| {
         crate::__verif::Snapshot {
             words: std::vec![self.state.load(Ordering::SeqCst)],
+            addrs: std::vec![&self.state as *const _ as usize],
             events: std::vec![
                 crate::__verif::event(&self.active_initializers),
                 crate::__verif::event(&self.passive_waiters),
             ],
         }
+        })
     }
 }
 
